@@ -487,6 +487,87 @@ class Engine:
         c[name] = res
         return res
 
+    def param_written(self, name, idx, _stack=()):
+        """may function `name` store through its idx-th (pointer) parameter?  Syntactic
+        and transitive over direct calls; anything unknown counts as a write."""
+        c = self.__dict__.setdefault('_pw_cache', {})
+        key = (name, idx)
+        if key in c:
+            return c[key]
+        if (name, idx) in _stack:
+            return False
+        if name in PURE_FUNCTIONS or name in self.pure:
+            return False
+        u, f = self.find_fn(name)
+        if f is None:
+            return True
+        params = u.params(name)
+        if idx >= len(params):
+            return True
+        roots = {params[idx]['id']}
+        res = False
+        # aliases: locals initialised from the parameter (possibly cast / offset / &p->field)
+        changed = True
+        def rooted(n):
+            n = cast.strip_all_casts(n)
+            while True:
+                k = cast.kind(n)
+                if k == 'DeclRefExpr':
+                    return n['referencedDecl'].get('id') in roots
+                if k in ('MemberExpr', 'ArraySubscriptExpr'):
+                    n = cast.strip_all_casts(n['inner'][0])
+                elif k == 'UnaryOperator' and n.get('opcode') in ('*', '&'):
+                    n = cast.strip_all_casts(n['inner'][0])
+                elif k == 'BinaryOperator' and n.get('opcode') in ('+', '-'):
+                    n = cast.strip_all_casts(n['inner'][0])
+                else:
+                    return False
+        while changed:
+            changed = False
+            for x in cast.walk(f):
+                if cast.kind(x) == 'VarDecl' and x.get('inner') and x['id'] not in roots and '*' in cast.qual_type(x):
+                    if rooted(x['inner'][0]):
+                        roots.add(x['id'])
+                        changed = True
+        for x in cast.walk(f):
+            kd = cast.kind(x)
+            tgt = None
+            if kd == 'BinaryOperator' and x.get('opcode') == '=':
+                tgt = x['inner'][0]
+            elif kd == 'CompoundAssignOperator':
+                tgt = x['inner'][0]
+            elif kd == 'UnaryOperator' and x.get('opcode') in ('++', '--'):
+                tgt = x['inner'][0]
+            if tgt is not None:
+                t0 = cast.strip_all_casts(tgt)
+                if cast.kind(t0) != 'DeclRefExpr' and rooted(t0):
+                    res = True
+                    break
+            if kd == 'CallExpr':
+                cn = cast.callee_name(x)
+                for j, a in enumerate(x['inner'][1:]):
+                    if rooted(a) and ('*' in cast.qual_type(a) or '[' in cast.qual_type(a)):
+                        if cn is None or self.param_written(cn, j, _stack + ((name, idx),)):
+                            # const-qualified pointee in the callee's prototype cannot be written
+                            if cn is not None:
+                                d = None
+                                for uu in self.units:
+                                    d = uu.fn_decls.get(cn)
+                                    if d is not None:
+                                        break
+                                if d is not None:
+                                    ps_ = [q for q in cast.inner(d) if cast.kind(q) == 'ParmVarDecl']
+                                    if j < len(ps_):
+                                        pt = cast.qual_type(ps_[j])
+                                        if '*' in pt and 'const' in pt.rsplit('*', 1)[0].split('*')[-1]:
+                                            continue
+                            res = True
+                            break
+                if res:
+                    break
+        c[key] = res
+        return res
+
     # -- background facts ------------------------------------------------------
     def unsigned(self, t):
         qt = self.types.get(t)
@@ -1666,7 +1747,10 @@ class _Activation:
                     qt = cast.qual_type(a)
                     if '*' in qt or '[' in qt:
                         # parameter type decides constness, not the argument's type
-                        if not self.param_is_const_ptr(name, callee, argnodes.index(a)):
+                        ai = argnodes.index(a)
+                        if not self.param_is_const_ptr(name, callee, ai):
+                            if name is not None and not self.e.param_written(name, ai):
+                                continue
                             self.clobber_term(s2, v, 'call:' + desc)
             out.append((s2, res))
         return out
